@@ -23,8 +23,9 @@ RULE = ('Finite product: every expression / pattern slot template (each side of 
         'ast.parse(ast.unparse(expected)) reproduces expected. Oracle: if replace() returns, ast.dump(ast.parse(root.src)) == '
         'ast.dump(expected). A raise is a refusal (counted), not a violation. Non-trivial = ast.unparse parenthesises the child in '
         'that slot (precedence / syntax requires parentheses) or a multi-line layout is involved; distinct by full case tuple. '
-        'thorough enumerates the whole product (exhaustive: true), quick all slot x child pairs at the base layout plus a seeded '
-        'half of the rest.')
+        'Additionally every slot x child is run with every other replaced operand (OCCUPANTS: parenthesised placeholder, generator '
+        'expression sharing its call\'s parentheses, bare / parenthesised tuple, lambda, conditional, yield ...; kept only where the '
+        'occupant sits at the slot path without regrouping) at the one-line parent layout. Both tiers enumerate the whole product.')
 ASSUMPTIONS = [
     'the slot and child tables in this file define "the whole expression and pattern grammar" for this check; they are listed in evidence',
     'validity of a (slot, child) pair is CPython\'s: expected must survive unparse -> parse unchanged',
@@ -74,13 +75,19 @@ FORMS = ('src', 'ast', 'fst')
 PARS = ('auto', True)
 
 
+# what stands in the slot before the replacement (the replaced operand): the placeholder name, parenthesised variants of it, and other operand shapes -
+# among them a generator expression which shares the parentheses of its call ('gen_solo', only valid as a sole call argument)
+OCCUPANTS = ('SLOT', '(SLOT)', '(  # o\n    SLOT\n)', '((SLOT))', 'q for q in r', '(q for q in r)', 'q, r', '(q, r)', 'q + r', 'q(r)', 'lambda: q', '[q, r]', 'q if r else s', 'yield')
+PATTERN_OCCUPANTS = ('SLOT', '(SLOT)', '[q, r]', 'q | r', '(q | r)', 'q, r', 'C(q)', 'q as r')
+
+
 def is_pattern_slot(slot):
     return ' case ' in slot and 'if SLOT' not in slot
 
 
 def params(tier):
     if tier == 'quick':
-        return {'examples': 0, 'wall': 80, 'case_timeout': 30}
+        return {'examples': 0, 'wall': 200, 'case_timeout': 30}
 
     return {'examples': 0, 'wall': 1500, 'case_timeout': 30}
 
@@ -110,6 +117,17 @@ def enumerate_cases(tier, shard, nshards, seed):
 
 
                 yield {'slot': si, 'child': ci, 'cl': cl, 'pl': pl, 'form': form, 'pars': pars}
+
+            # the replaced operand: every other occupant of the slot, at the one-line parent layout
+            for oi in range(1, len(PATTERN_OCCUPANTS if is_pattern_slot(slot) else OCCUPANTS)):
+                for cl, form, pars in itertools.product(('bare', 'par'), FORMS, PARS):
+                    if cl == 'par' and form != 'src':
+                        continue
+
+                    k += 1
+
+                    if k % nshards == shard:
+                        yield {'slot': si, 'child': ci, 'cl': cl, 'pl': 'line', 'form': form, 'pars': pars, 'occ': oi}
 
 
 def coverage_extra(tier):
@@ -154,6 +172,15 @@ def path_to(tree, target):
         return None
 
     return rec(tree, [])
+
+
+def follow(tree, path):
+    n = tree
+
+    for f, i in path:
+        n = getattr(n, f)[i] if i is not None else getattr(n, f)
+
+    return n
 
 
 def set_ctx(a, ctx):
@@ -294,18 +321,56 @@ def execute(case, ctx):
     except Exception:
         needs_pars = False
 
+    if case.get('occ'):
+        # another operand stands in the slot: same path as the placeholder, and it must be exactly that operand there (no regrouping by precedence)
+        occ = (PATTERN_OCCUPANTS if pattern else OCCUPANTS)[case['occ']]
+        parent_src = parent_src.replace('SLOT', occ.replace('SLOT', 'z'))
+
+        try:
+            occ_tree = ast.parse(parent_src)
+            occ_ast = parse_child(occ.replace('SLOT', 'z'), pattern)
+        except SyntaxError:
+            raise Skip('occupant_not_valid_in_slot') from None
+
+        try:
+            fresh = ast.parse(slot)
+            ppath = path_to(fresh, find_slot(fresh)[0])
+            op_ = follow(occ_tree, ppath)
+            on_ = getattr(op_, field)[idx] if idx is not None else getattr(op_, field)
+        except (AttributeError, IndexError, TypeError, KeyError):
+            raise Skip('occupant_regroups_slot') from None
+
+        skeleton = copy.deepcopy(occ_tree)
+        sp_ = follow(skeleton, ppath)
+
+        if idx is not None:
+            getattr(sp_, field)[idx] = copy.deepcopy(new)
+        else:
+            setattr(sp_, field, copy.deepcopy(new))
+
+        if not isinstance(on_, ast.AST) or S0(on_) != S0(occ_ast) or S0(skeleton) != S0(expected):
+            raise Skip('occupant_regroups_slot')
+
+        occ_found = (op_, field, idx)
+        ctx.count(f'occupant:{occ}')
+
     # ---- pfst
     try:
         root = FST(parent_src, 'exec')
     except Exception as exc:
         raise Skip(f'parent_build_failed:{type(exc).__name__}') from None
 
-    live_found = find_slot(root.a)
+    if case.get('occ'):
+        lp, lf, li = occ_found
+        lp = follow(root.a, path_to(occ_tree, lp))
+    else:
+        live_found = find_slot(root.a)
 
-    if live_found is None:
-        raise Skip('slot_not_found_in_layout')
+        if live_found is None:
+            raise Skip('slot_not_found_in_layout')
 
-    lp, lf, li = live_found
+        lp, lf, li = live_found
+
     target = (getattr(lp, lf)[li] if li is not None else getattr(lp, lf)).f
 
     try:
